@@ -101,6 +101,13 @@ CLAIMED["C10"] = {
     "technique": "Coq proof (printer/parser and flatten/unflatten round trips) over source-translated code + reflexivity tie + vm_compute correspondence + bit-exact reload audit",
 }
 
+CLAIMED["C11"] = {
+    "text": "Coq theorems over a ring-generic model of the explicit linear backward (Model/Grad.v), instantiated on the reals: for EVERY number of rows (the product of any leading shape, i.e. any input rank), M, K, operands, bias and upstream gradient, the three formulas of QTensorLinear.backward are exactly the gradient of the affine forward in the input, the weight and the bias (the vector pairing with every perturbation like the change of <G, output>), and that vector is unique; life-cycle theorem: an unfrozen module quantizes the CURRENT float weight at every forward, a frozen one ignores updates. Tie: the three backward expressions with guards and return order, the return tuples of the four quantizer / dequantizer backwards (incoming gradient, None elsewhere) and AST fingerprints of the surrounding forwards, re-read on every run. Correspondence: QTensorLinear run on integer-valued operands (ranks 2..4, non-contiguous gradients) equals the Z instance of the model exactly. Audit: QLinear / QConv2d against float twins as autograd leaves, frozen / unfrozen, weight updates between forwards.",
+    "note": "Trusted: Coq kernel + vm_compute; Reals axioms (sig_forall_dec, functional_extensionality_dep) for the real instance - the generic proofs are axiom-free; gen_grad.py; torch autograd as the oracle for the float twin and as the engine that composes the per-node backwards (the chain rule itself is torch's, not modelled); Conv2d backward is torch's convolution_backward on dequantized operands (exercised, not modelled).",
+    "design": "6/C11",
+    "technique": "Coq proof (adjoint characterisation of the linear backward) + extracted-facts tie + exact integer correspondence + float-twin gradient audit",
+}
+
 NOT_YET = {}
 
 
